@@ -66,6 +66,9 @@ struct Ctl {
     pw_checks: u64,
     // the current poll ended at the hook's scheduler-visible yield
     yielded: bool,
+    // process_internal has returned for this slot; only the flush of its own
+    // socket is left before the next gate pass
+    flushing: Vec<bool>,
 }
 
 thread_local! {
@@ -110,6 +113,7 @@ pub(crate) fn activate(slots: usize) -> usize {
             consumed: vec![[0; 5]; slots],
             pw_checks: 0,
             yielded: false,
+            flushing: vec![false; slots],
         };
         id
     });
@@ -167,6 +171,12 @@ pub(crate) fn consumed(slot: usize) -> [u64; 5] {
 
 pub(crate) fn pw_checks() -> u64 {
     with_ctl(|c| c.pw_checks)
+}
+
+/// True while connection `slot` is between the end of process_internal and its
+/// next gate pass (only the flush of its own socket happens there).
+pub(crate) fn flushing(slot: usize) -> bool {
+    with_ctl(|c| c.flushing.get(slot).copied().unwrap_or(false))
 }
 
 /// True once if a poll since the last call stopped at the password hook's yield.
@@ -255,6 +265,9 @@ pub(crate) async fn gate(cs: &mut ConnState) -> Option<Guard> {
         with_ctl(|c| {
             let slot = c.cur;
             c.info[slot] = Some(make_info(cs, kp));
+            if slot < c.flushing.len() {
+                c.flushing[slot] = false;
+            }
             if let Some(d) = c.directive[slot].take() {
                 c.at_gate[slot] = false;
                 std::task::Poll::Ready((slot, d))
@@ -331,6 +344,7 @@ pub(crate) fn ungate(cs: &mut ConnState, g: Option<Guard>) {
                 if let Some(d) = g.directive {
                     c.consumed[g.slot][d as usize] += 1;
                 }
+                c.flushing[g.slot] = true;
                 let kp = c.info[g.slot].as_ref().map_or(false, |i| i.kill_pending)
                     && g.directive != Some(Directive::Kill);
                 c.info[g.slot] = Some(make_info(cs, kp));
